@@ -215,6 +215,74 @@ def work(k, of):
         print(idx, m["file"].split("/")[-1], m["line"] + 1, rec.get("suite"), rec.get("caught_by"), rec.get("how", "")[:90], flush=True)
 
 
+def seedwork(k, of):
+    """final regression over every recorded seeded change, in replica K: apply seeded/<name>/patch.diff, run the check of
+    its own property (then the other properties recorded as catching it, if that one passes), undo; results to
+    /tmp/mut/seed_results.jsonl (merged into the meta.json files by `seedmerge`)"""
+    r = os.path.join(ROOT, "r%d" % k)
+    names = sorted(os.listdir("/verif/seeded"))
+    resf = os.path.join(ROOT, "seed_results.jsonl")
+    done = set()
+    if os.path.exists(resf):
+        done = {json.loads(l)["name"] for l in open(resf)}
+    for idx, name in enumerate(names):
+        if idx % of != k or name in done:
+            continue
+        meta = json.load(open("/verif/seeded/%s/meta.json" % name))
+        props = [meta["property"]] + [p for p in meta.get("caught_by", []) if p != meta["property"]]
+        rc, out = sh("git apply /verif/seeded/%s/patch.diff" % name, cwd=r + "/repo")
+        rec = dict(name=name, checks={})
+        if rc != 0:
+            rec["error"] = "patch does not apply: " + out[-200:]
+        else:
+            try:
+                for p in props:
+                    t0 = time.time()
+                    rc, out = sh("./check %s --tier quick" % p, cwd=r + "/verif", timeout=2400,
+                                 env=dict(os.environ, VERIF_EVIDENCE_DIR=r + "/verif/evidence"))
+                    v = [l for l in out.split("\n") if l.startswith("VIOLATION")]
+                    rep = None
+                    for l in v:
+                        try:
+                            rj = json.load(open(l.split("replay=")[1].split()[0]))
+                            rep = dict(kind=rj.get("kind"), failure=rj.get("failure"), found_in=rj.get("found_in"))
+                            if rep["failure"]:
+                                break
+                        except Exception as e:
+                            rep = dict(unreadable=str(e))
+                    rec["checks"][p] = dict(exit=rc, violation_lines=[x.replace(r + "/verif", "/verif") for x in v],
+                                            wall_s=round(time.time() - t0, 1), replay_summary=rep)
+                    if rc != 0:
+                        break
+            finally:
+                sh("git checkout -- .", cwd=r + "/repo")
+        with open(resf, "a") as f:
+            f.write(json.dumps(rec, default=str) + "\n")
+        print(name, {p: c["exit"] for p, c in rec["checks"].items()}, rec.get("error", ""), flush=True)
+
+
+def seedmerge():
+    head = subprocess.run("git -C /verif rev-parse --short HEAD", shell=True, capture_output=True, text=True).stdout.strip()
+    n = 0
+    for l in open(os.path.join(ROOT, "seed_results.jsonl")):
+        rec = json.loads(l)
+        if rec.get("error"):
+            print("ERROR", rec["name"], rec["error"])
+            continue
+        mp = "/verif/seeded/%s/meta.json" % rec["name"]
+        meta = json.load(open(mp))
+        oc = meta.get("our_checks", {})
+        oc.update(rec["checks"])
+        meta["our_checks"] = oc
+        meta["caught_by"] = [p for p, c in oc.items() if c["exit"] != 0]
+        meta["rechecked_at"] = head
+        json.dump(meta, open(mp, "w"), indent=1)
+        n += 1
+        if not any(c["exit"] != 0 for c in rec["checks"].values()):
+            print("NOT CAUGHT in the final sweep:", rec["name"], {p: c["exit"] for p, c in rec["checks"].items()})
+    print("merged", n)
+
+
 def report():
     rs = [json.loads(l) for l in open(os.path.join(ROOT, "results.jsonl"))]
     n = len(rs)
@@ -242,3 +310,7 @@ if __name__ == "__main__":
         work(int(sys.argv[2]), int(sys.argv[3]))
     elif c == "report":
         report()
+    elif c == "seedwork":
+        seedwork(int(sys.argv[2]), int(sys.argv[3]))
+    elif c == "seedmerge":
+        seedmerge()
